@@ -573,13 +573,13 @@ func checkDocument(c *hx.Ctx, format string, d Doc, o rag.MarkdownOptions, md st
 	})
 	for i := 0; okT && i < len(wantT); i++ {
 		checkGridEq(c, tkey(mergedT[i]), strings.Join(got.Tables[i].Lines, "\n")+"\n", wantT[i], kase,
-			func(a, b string) bool { return squash(a) == squash(b) })
+			func(a, b string) bool { return squashWS(a) == squashWS(b) })
 	}
 	// --- no body text lost ---
 	sq := squash(md)
 	var lost []string
 	need := func(s string) {
-		if t := squash(s); t != "" && !strings.Contains(sq, t) {
+		if t := squashWS(s); t != "" && !strings.Contains(sq, t) {
 			lost = append(lost, s)
 		}
 	}
